@@ -714,11 +714,12 @@ class SceneMachine(Machine):
 
     def _kinds(self, spec):
         k = ["p.bfield", "p.electron", "p.comp.add", "p.comp.set", "p.comp.set.bad", "p.comp.clear", "p.geometry", "p.geomtransform", "p.integrator",
-             "p.models.set", "p.models.add", "p.models.clear", "p.models.readd", "p.atomic_data", "p.transform", "p.parent",
+             "p.models.set", "p.models.add", "p.models.clear", "p.models.readd", "p.models.set.bad", "p.reassign", "p.caller.mutate",
+             "p.atomic_data", "p.transform", "p.parent",
              "frame.transform", "p.recreate"]
         if spec["beams"]:
             k += ["b.set", "b.set", "b.element", "b.atomic_data", "b.plasma", "b.attenuator", "b.att.reassign", "b.att.step", "b.att.clamp_sigma",
-                  "b.models.set", "b.models.add", "b.models.clear", "b.models.readd", "b.model.line", "b.integrator", "b.transform", "b.parent",
+                  "b.models.set", "b.models.add", "b.models.clear", "b.models.readd", "b.models.set.bad", "b.reassign", "b.model.line", "b.integrator", "b.transform", "b.parent",
                   "b.recreate", "b.reject"]
         if spec.get("laser"):
             k += ["l.profile.set", "l.profile.set", "l.profile.polarize", "l.profile", "l.spectrum", "l.spectrum.set", "l.plasma",
@@ -771,6 +772,13 @@ class SceneMachine(Machine):
             op["model"] = gen_plasma_model(rng, comp)
         elif kind == "p.models.readd":
             op["which"] = rng.randrange(8)
+        elif kind == "p.models.set.bad":
+            op["models"] = [gen_plasma_model(rng, comp) for _ in range(rng.randint(1, 3))]
+            op["junk_at"] = rng.randrange(4)
+        elif kind == "p.reassign":
+            op["what"] = rng.choice(["atomic_data", "geometry", "integrator", "electron_distribution", "b_field", "geometry_transform", "species"])
+        elif kind == "p.caller.mutate":
+            op["what"] = rng.choice(["models", "species"])
         elif kind in ("p.atomic_data",):
             op["prov"] = rng.randrange(nprov)
         elif kind in ("p.transform",):
@@ -850,6 +858,11 @@ class SceneMachine(Machine):
                 op["model"] = gen_beam_model(rng, bcomp, bs["element"])
             elif kind == "b.models.readd":
                 op["which"] = rng.randrange(8)
+            elif kind == "b.models.set.bad":
+                op["models"] = [gen_beam_model(rng, bcomp, bs["element"]) for _ in range(rng.randint(1, 3))]
+                op["junk_at"] = rng.randrange(4)
+            elif kind == "b.reassign":
+                op["what"] = rng.choice(["atomic_data", "plasma", "integrator", "element"])
             elif kind == "b.model.line":
                 op["which"] = rng.randrange(4)
                 op["line"] = gen_line(rng, [s for s in bcomp if s["ch"] > 0] or bcomp)
@@ -1149,6 +1162,47 @@ class SceneMachine(Machine):
                 if op.get("keep"):
                     c.kept_pm.extend(list(p.models))
                 p.models = [mk_plasma_model(m) for m in op["models"]]
+            elif k == "p.models.set.bad":
+                lst = [mk_plasma_model(m) for m in op["models"]]
+                lst.insert(op["junk_at"] % (len(lst) + 1), "not-a-model")
+                env.fault_armed("reject")
+                try:
+                    p.models = lst
+                except Exception:
+                    env.fault_fired("reject")
+                else:
+                    raise Violation("invalid-accepted", "plasma.models", "a model list containing a str was accepted")
+                if len(list(p.models)) != len(ps["models"]):
+                    raise Violation("reject-changed-state", "plasma.models", "a refused model list changed the attached models: %d now, %d before" % (
+                        len(list(p.models)), len(ps["models"])))
+                return "raised"
+            elif k == "p.reassign":
+                w = op["what"]
+                if w == "species":
+                    sp_objs = list(p.composition)
+                    if not sp_objs:
+                        return "noop"
+                    p.composition.add(sp_objs[0])              # the very same Species object again
+                elif w == "geometry_transform":
+                    p.geometry_transform = p.geometry_transform
+                else:
+                    setattr(p, w, getattr(p, w))
+                env.probe("same_object_reassigned")
+                return "raised"                                  # (no specification change; not "ok" so apply_spec is skipped)
+            elif k == "p.caller.mutate":
+                # the caller keeps the list it handed over and goes on editing it: the plasma must not follow
+                if op["what"] == "models":
+                    lst = [mk_plasma_model(m) for m in ps["models"]]
+                    p.models = lst
+                    lst.append(mk_plasma_model({"cls": "Bremsstrahlung"}))
+                    del lst[0]
+                else:
+                    lst = [mk_species(x) for x in ps["composition"]]
+                    p.composition = lst
+                    lst.append(mk_species(gen_species(__import__("random").Random(7), "Ne", 10)))
+                    del lst[0]
+                env.probe("caller_container_mutated")
+                return "raised"
             elif k == "p.models.readd":
                 if not c.kept_pm or len(ps["models"]) >= 4:
                     return "noop"
@@ -1230,6 +1284,24 @@ class SceneMachine(Machine):
             if op.get("keep"):
                 c.kept_bm.extend(list(b.models))
             b.models = [mk_beam_model(m) for m in op["models"]]
+        elif k == "b.models.set.bad":
+            lst = [mk_beam_model(m) for m in op["models"]]
+            lst.insert(op["junk_at"] % (len(lst) + 1), "not-a-model")
+            env.fault_armed("reject")
+            try:
+                b.models = lst
+            except Exception:
+                env.fault_fired("reject")
+            else:
+                raise Violation("invalid-accepted", "beam.models", "a model list containing a str was accepted")
+            if len(list(b.models)) != len(bs["models"]):
+                raise Violation("reject-changed-state", "beam.models", "a refused model list changed the attached models")
+            return "raised"
+        elif k == "b.reassign":
+            w = op["what"]
+            setattr(b, w, getattr(b, w))
+            env.probe("same_object_reassigned")
+            return "raised"
         elif k == "b.models.readd":
             if not c.kept_bm or len(bs["models"]) >= 4:
                 return "noop"
